@@ -39,7 +39,7 @@ func NewParser(data []byte) *Parser {
 func (p *Parser) Parse() ([]Operation, error) {
 	for p.pos < len(p.data) {
 		// Skip whitespace
-		p.skipWhitespace()
+		p.skipSpace()
 
 		if p.pos >= len(p.data) {
 			break
@@ -60,7 +60,7 @@ func (p *Parser) parseNext() error {
 	start := p.pos
 
 	// Skip whitespace
-	p.skipWhitespace()
+	p.skipSpace()
 	if p.pos >= len(p.data) {
 		return nil
 	}
@@ -122,7 +122,7 @@ func (p *Parser) parseOperator() error {
 // parseOperand parses a single operand, which can be a number, string, name,
 // array, dictionary, boolean, or null.
 func (p *Parser) parseOperand() (core.Object, error) {
-	p.skipWhitespace()
+	p.skipSpace()
 
 	if p.pos >= len(p.data) {
 		return nil, fmt.Errorf("unexpected end of stream")
@@ -426,7 +426,7 @@ func (p *Parser) parseArray() (core.Object, error) {
 	var arr core.Array
 
 	for p.pos < len(p.data) {
-		p.skipWhitespace()
+		p.skipSpace()
 
 		if p.pos >= len(p.data) {
 			return nil, fmt.Errorf("unclosed array")
@@ -458,7 +458,7 @@ func (p *Parser) parseDict() (core.Object, error) {
 	dict := make(core.Dict)
 
 	for p.pos < len(p.data) {
-		p.skipWhitespace()
+		p.skipSpace()
 
 		if p.pos >= len(p.data) {
 			return nil, fmt.Errorf("unclosed dictionary")
@@ -500,6 +500,25 @@ func (p *Parser) parseDict() (core.Object, error) {
 func (p *Parser) skipWhitespace() {
 	for p.pos < len(p.data) && isWhitespace(p.data[p.pos]) {
 		p.pos++
+	}
+}
+
+// skipSpace advances past everything that separates tokens: white space and
+// comments. A comment runs from '%' to the end of the line and counts as
+// white space; it cannot occur inside a string, so the string parsers keep
+// using skipWhitespace.
+func (p *Parser) skipSpace() {
+	for p.pos < len(p.data) {
+		c := p.data[p.pos]
+		if isWhitespace(c) {
+			p.pos++
+		} else if c == '%' {
+			for p.pos < len(p.data) && p.data[p.pos] != '\r' && p.data[p.pos] != '\n' {
+				p.pos++
+			}
+		} else {
+			break
+		}
 	}
 }
 
